@@ -330,6 +330,11 @@ def run(ctx):
                             # no location, a namespace other loads of this process have fetched from somewhere
                             '<xsd:import namespace="urn:inc"/>',
                             "WSDL-IMPORT-RELATIVE",
+                            "SCHEMALOCATION-HINT",
+                            # an explicit location for a namespace suds has a built-in location for: the named copy is
+                            # the document asked for, not the built-in one
+                            '<xsd:import namespace="http://www.w3.org/XML/1998/namespace" '
+                            'schemaLocation="http://fetch.invalid/my-xml.xsd"/>',
                         ]
                         out = []
                         for extra_decl in variants_:
@@ -338,6 +343,11 @@ def run(ctx):
                                 # when a file of that name happens to lie in the working directory
                                 main = wsdlkit.wsdl_doc(schema, "f", "fResponse").replace(
                                     b"<wsdl:types>", b'<wsdl:import namespace="urn:inc" location="local.xsd"/><wsdl:types>', 1)
+                            elif extra_decl == "SCHEMALOCATION-HINT":
+                                # an xsi:schemaLocation hint on the schema node names no document to fetch
+                                main = wsdlkit.wsdl_doc('<xsd:import namespace="urn:hinted"/>' + schema, "f", "fResponse").replace(
+                                    b"<xsd:schema targetNamespace=", b'<xsd:schema xmlns:xsi="http://www.w3.org/2001/XMLSchema-instance" '
+                                    b'xsi:schemaLocation="urn:hinted http://127.0.0.1:9/hint.xsd" targetNamespace=', 1)
                             else:
                                 main = wsdlkit.wsdl_doc(extra_decl + schema, "f", "fResponse")
                             asked = []
@@ -356,8 +366,8 @@ def run(ctx):
                                 out.append(str(cl) + str(cl.wsdl.schema))
                             except Exception as e:
                                 out.append(type(e).__name__)
-                            if extra_decl.startswith(("<xl:", '<xsd:import namespace="http', "<xsd:redefine",
-                                                      '<xsd:import namespace="urn:inc"/>')) and len(asked) != 1:
+                            if extra_decl.startswith(("<xl:", '<xsd:import namespace="http://127.0.0.1', "<xsd:redefine",
+                                                      '<xsd:import namespace="urn:inc"/>', "SCHEMALOCATION-HINT")) and len(asked) != 1:
                                 out.append("%s fetched: %r" % (MARK, asked[1:]))
                             if any(u.startswith("file:") or not u.startswith(("http://fetch.invalid/", "suds:"))
                                    for u in asked):
@@ -431,7 +441,8 @@ def run(ctx):
                             ctx.fail("parsing reached outside the document (file/network access observed)", meta,
                                      evs[:4], "no I/O")
                         if MARK in out:
-                            ctx.fail("external content was included in the parsed result", meta, out[:200], "no external content")
+                            ctx.fail("external content was included in the parsed result", meta,
+                                     out[max(0, out.find(MARK) - 160):out.find(MARK) + 120], "no external content")
         finally:
             os.chdir(cwd)
     finally:
